@@ -108,6 +108,18 @@ def pytree_cases(rng, n_random, thorough):
         lt = arr_type("a {p}")
         tree3 = {"t": "tuple", "xs": [arr_val([2, 3]), arr_val([2, 3])]}
         cases.append(([], {"t": "pytree", "l": lt, "s": "T"}, tree3, {"p": "raises:base" if cls == "BASEEXC" else "raises:exception"}))
+    # an EXISTING binding that an earlier leaf rewrites (a broadcastable multi-axis name widened from (1,3) to (2,3))
+    # before a later leaf fails or raises: the old value must come back, not just the new names go away
+    wide_t = arr_type("*#v a")
+    for prior_v in ([1, 3], [3], [1, 1], []):
+        for sname in (None, "T"):
+            prior = [("*#v", prior_v), ("a", [5])]
+            tree = {"t": "tuple", "xs": [arr_val([2, 3, 5]), arr_val([2, 3, 6])]}
+            cases.append((prior, {"t": "pytree", "l": wide_t, "s": sname}, tree, {}))
+            cases.append((prior, {"t": "pytree", "l": wide_t, "s": sname}, {"t": "list", "xs": [arr_val([2, 3, 5]), arr_val([4, 3, 5]), arr_val([2, 3, 5])]}, {}))
+            for cls in ("EXC", "BASEEXC"):
+                u = {"t": "union", "ts": [wide_t, {"t": "user", "accept": ["A"], "faults": {"B": cls}}]}
+                cases.append((prior, {"t": "pytree", "l": u, "s": sname}, {"t": "tuple", "xs": [arr_val([2, 3, 5]), {"t": "opaque", "tag": "B"}]}, {}))
     for _ in range(n_random):
         lt = gen_prog.rand_leaf_type(rng)
         alpha = {nm: rng.below(4) for nm in gen_dims.NAMES}
